@@ -177,11 +177,10 @@ PROPS["C08"] = dict(
     ],
     rule="Complete enumeration: all 2048 values of allow_tld bits 0-10 x {caller-installed callback returning each class 1-9, 0 and every negative "
          "code -1..-35, in the ASCII and the UTF-8 dispatch} x tld_check {0,1}; and x real addresses (two table rows per class taken from the CSV "
-         "at run time, reserved names, unlisted TLD, non-FQDN, IPv4/IPv6 literals, an IDN TLD in both spellings) x 4 modes x tld_check {0,1}, plus "
-         "bits above 10; eav_init defaults (fields and behaviour, three pre-fills of the raw block). Non-trivial = a class result together with a "
+         "at run time, reserved names, unlisted TLD, non-FQDN, IPv4/IPv6 literals, an IDN TLD in both spellings, IDNA-mapped spellings, 'example' in front of a reserved TLD, root-dotted names) x 4 modes x tld_check {0,1} x {default, EAV_EXTRA} build, plus bits above 10; eav_init defaults (fields and behaviour, three pre-fills of the raw block). Non-trivial = a class result together with a "
          "mask that is neither empty nor full (the mask discriminates); distinct by (mode, tld_check, result/address, mask) hash.",
     assumptions=["class<->bit<->error-code pairing is by the *names* of the documented constants (EAV_TLD_X, TLD_TYPE_X, EEAV_TLD_X)",
-                 "callbacks return 0-9 or a negative error code (10+ reaches the documented abort)"],
+                 "callbacks return 0-9 or a negative error code (10+ reaches the documented abort)", "no TLD class is asserted for a root-dotted name (C09 defines classes for names without root dot): the answer must be the same in the three ASCII modes and in both builds, and follow the bit of the class the record reports"],
     min_evaluations=dict(quick=1_000_000, thorough=1_000_000),
     technique="complete enumeration of the finite policy space (2^11 masks x classes x modes x tld_check) against the policy formula, through a caller-installed callback and real addresses",
     level_text="The quantifier is finite and is enumerated completely on every run (exhaustive: true); the oracle is the documented policy formula.",
@@ -204,8 +203,7 @@ PROPS["C11"] = dict(
          "auto_tld.c / auto_tld.h / tld-domains.txt (timestamp masked); (b) gentld.pl on Hypothesis-generated CSVs (1-25 unique rows, six types, "
          "managers starting / not starting with 'Not assigned' or 'Retired' in mixed case, embedded commas, quotes, newlines, non-ASCII), emitted table "
          "parsed back and compared row by row (order, text, strlen+1, class by the documented rule). Compiled table: every row of punycode.csv / "
-         "raw.csv looked up (is_tld, is_utf8_domain, three ASCII modes, U-label in mode 6531), every proper prefix / suffix / extension of a row and "
-         "random labels absent from the CSV must not be found; CSV rows must be unique lower-case A-labels; tld-domains.txt line k = raw row k. "
+         "raw.csv looked up (is_tld, is_utf8_domain, three ASCII modes, U-label in mode 6531), every proper prefix / suffix / extension of a row and random labels absent from the CSV must not be found; sequences of lookups (each row followed by every row that is a part of it and the other way round, table neighbours, far ends, random sequences of 2-11 labels incl. parts / extensions of earlier ones) must each give the CSV's answer whatever was looked up before; CSV rows must be unique lower-case A-labels; tld-domains.txt line k = raw row k. "
          "Non-trivial = a table row, an absent near-miss label, an output line, or a generated CSV with at least one override row; distinct by content hash.",
     assumptions=["Perl interpreter and tools/perl5shim/Text/CSV.pm (stand-in for the uninstalled Text::CSV) are trusted",
                  "independent CSV reader and class rule in oracle/ref.hpp and tools/c11_py.py"],
@@ -232,7 +230,7 @@ PROPS["C01"] = dict(
     ],
     rule="Addresses: all strings of length 0-7 (quick) / 0-8 (thorough) over {a @ . [ ] 1 : \"}; local parts of 58-72 octets in 7 word shapes "
          "(atom, dotted, quoted, quoted pair, 2- and 4-byte UTF-8 whose byte count crosses 64 while the character count does not) x 5 domains; "
-         "'@' placement shapes; grammar-based random addresses (valid / mutated local part x host, IDN host, literal; extra '@' at either end "
+         "'@' placement shapes; the address-literal texts enumerated for C05 as domain part; grammar-based random addresses (valid / mutated local part x host, IDN host, literal; extra '@' at either end "
          "or anywhere; raw byte strings) with a random allow_tld; the repository's address corpus. Each is run in 4 modes x tld_check {0,1} through "
          "eav_is_email and is_<mode>_email. Non-trivial = at least one '@' with non-empty text on both sides; distinct by address hash. Health "
          "check: >= 10% of random cases have a local part on which the four reference scanners disagree (pins the mode wiring).",
@@ -260,9 +258,8 @@ PROPS["C12"] = dict(
     ],
     rule="Local parts of 56-72 octets in 7 word shapes x 5 domains; 11 mode-discriminating addresses on one object switched through every ordered pair of "
          "modes with and without a failed eav_setup in between; all strings of length <= 5 (quick) / <= 7 (thorough) over the 12-class pure-ASCII alphabet {a 1 . - @ [ ] : SP ( 0x01 _}; every ASCII byte "
-         "except DQUOTE/backslash at 3 positions of the local part x 18 domain shapes; grammar-based random addresses of the C01 generator (half of "
-         "them steered into the 'pure ASCII, no quote/backslash' population) with default and random allow_tld; the repository corpus; all in 4 modes "
-         "x tld_check {0,1}. Non-trivial = the address has a non-empty domain part; distinct by address hash.",
+         "except DQUOTE/backslash at 3 positions of the local part x 24 domain shapes (incl. root-dotted reserved names); grammar-based random addresses of the C01 generator (half of "
+         "them steered into the 'pure ASCII, no quote/backslash' population) with default and random allow_tld; the repository corpus; all in 4 modes x tld_check {0,1}, in the default and in the EAV_EXTRA build. Non-trivial = the address has a non-empty domain part; distinct by address hash.",
     assumptions=["pure differential between the modes of one build; what each mode should accept is pinned by C02-C05",
                  "mode 6531 may answer EEAV_IDN_ERROR where the ASCII modes accept or report a domain/TLD code (host names only)"],
     min_evaluations=dict(quick=3_000_000, thorough=30_000_000),
@@ -283,7 +280,7 @@ PROPS["C15"] = dict(
         stage("random", kind="rc", quick=10000, thorough=300000, max_size=100),
     ],
     rule="Inputs: the repository corpus and ~45 hand-picked addresses (one or more per error code), each with every one-byte insertion / replacement "
-         "from {. \" @ SP - 0x80 \\ [ 0x01} and every one-byte deletion; grammar-based random addresses of the C01 generator with default and "
+         "from {. \" @ SP - 0x80 \\ [ 0x01} and every one-byte deletion; the address-literal texts enumerated for C05 as domain part; grammar-based random addresses of the C01 generator with default and "
          "random allow_tld; all in 4 modes x tld_check {0,1}; addresses whose domain contains '_' are also judged in the LABELS_ALLOW_UNDERSCORE build. eav_setup with 16 rfc values (4 defined, -1, 4, 5, 7, 100, 255, 256, 65536, INT_MAX, "
          "INT_MIN, ...) after 7 kinds of preceding outcome. All 35 codes through a caller-installed callback (ASCII and UTF-8 dispatch) for the "
          "message rules. Non-trivial = a rejected (input, mode, tld_check) triple; distinct by (error code, mode, tld_check, input) hash. The "
@@ -311,8 +308,7 @@ PROPS["C16"] = dict(
         stage("random", kind="rc", quick=8000, thorough=300000, max_size=100),
     ],
     rule="All strings of length <= 6 (quick) / <= 7 (thorough) over {a @ . [ ] 1 : \"}; 8 local-part forms x 23 domain forms (host, reserved, "
-         "unlisted, single label, IDN in both spellings, IPv4/IPv6 literals tagged and untagged, malformed literals, root dot) x 3 masks; "
-         "grammar-based random addresses; the repository corpus; each in 4 modes x tld_check {0,1}, through eav_is_email and is_<mode>_email, in the "
+         "unlisted, single label, IDN in both spellings, IPv4/IPv6 literals tagged and untagged, malformed literals, root dot) x 3 masks; the address-literal texts enumerated for C05 (incl. every byte value at each position of the tag) as domain part; grammar-based random addresses; the repository corpus; each in 4 modes x tld_check {0,1}, through eav_is_email and is_<mode>_email, in the "
          "default build and the EAV_EXTRA build (two variants linked into one process). Non-trivial = accepted in some mode, or rejected with a "
          "local part that is valid in some mode; distinct by address hash.",
     assumptions=["the form of the domain (host / IPv4 / IPv6) and 'syntactically invalid' come from the reference recognisers of oracle/ref.hpp",
@@ -383,10 +379,10 @@ PROPS["C13"] = dict(
          "rfc=7 (invalid), tld_check=0, allow_tld=0, eav_setup, eav_is_email on 4 addresses (accepted IDN, local-part error, IDN error, plain "
          "accept), eav_errstr, eav_free+eav_init} after an initial eav_setup; random histories of up to 200 operations (mode changes with and "
          "without eav_setup, invalid rfc values -1/4/7/INT_MAX, tld_check, allow_tld in 0..2047, eav_errstr, eav_free+eav_init) over per-history "
-         "pools of 2-13 addresses from the repository corpus and the C01 generator. Non-trivial = at least two eav_is_email calls with a mode or "
+         "pools of 2-13 addresses from the repository corpus and the C01 generator. Every eav_is_email outcome is compared with a fresh object of the same process and with a fresh object in a process that has never called libeav before (helper forked before the first call, one new grandchild per query, memoised). Non-trivial = at least two eav_is_email calls with a mode or "
          "setting change between them; distinct by history hash.",
     assumptions=["precondition from the manual: eav_is_email only after a successful eav_setup since eav_init; eav_errstr after a failed eav_setup belongs to C15",
-                 "the fresh-object outcome is the specification of 'depends only on current settings and address'"],
+                 "the fresh-object outcome (same process, and a pristine process) is the specification of 'depends only on current settings and address'"],
     min_evaluations=dict(quick=1_000_000, thorough=10_000_000),
     technique="stateful model-based testing: bounded-exhaustive and rapidcheck-generated operation sequences against a settings model and a fresh-object differential, under ASan + LSan",
     level_text="Exploration of call histories: all short sequences over a pool that alternates outcome kinds are enumerated; long random histories are sampled and shrunk.",
@@ -521,7 +517,7 @@ PROPS["C20"] = dict(
     rule="Files: 0-60 lines drawn from {empty, blanks only, '#' comment, ' #' not-a-comment, valid/invalid addresses of the C01 generator, lines of "
          "1022-8192 bytes, 0.5-3.5 KiB lines with control characters, lines with a stray byte >= 0x80, embedded CR, control characters, 0-2 leading / "
          "trailing blanks, embedded NUL, IDN addresses} x {LF, CRLF} per line x final newline present/absent (rapidcheck, shrunk to the offending "
-         "lines); single-line files for 20 line shapes and lengths around 1024/2048/4096/8192 in three fillings x three terminators; the "
+         "lines); single-line files for 20 line shapes and lengths around 1024/2048/4096/8192 in three fillings x three terminators; lines of 100-260 and ~30 other lengths that end inside a multi-byte sequence (6 truncated tails), as first or second line; the "
          "repository's data files; a quarter of the random cases and 7 fixed pairs also run the tool on two files in one invocation (output must be the two per-file outputs one after the other). The ASan+UBSan build of bin/eav (make app) runs as a subprocess per file. Non-trivial = the file has an empty, "
          "long, invalid-UTF-8 or control-character line, a CRLF terminator or no final newline; distinct by file hash.",
     assumptions=["line model = the tool's documented trimming (terminator, one leading space, one trailing blank); '#' in column 1 is a comment",
